@@ -239,6 +239,14 @@ func (e *Exec) havocLoop(st *State, h *ssa.BasicBlock, li *loopInfo) {
 					e.havocKey(st, "ctx#cancelled", arr(SInt, SBool))
 					continue
 				}
+				if bi, ok := x.Call.Value.(*ssa.Builtin); ok && bi.Name() == "append" {
+					if slt, ok := x.Type().Underlying().(*types.Slice); ok {
+						for _, l := range shape(slt.Elem()) {
+							e.havocKey(st, leafKey(elemKey(slt.Elem()), l), arr(SInt, arr(SBV(64), l.Sort)))
+						}
+					}
+					continue
+				}
 				if e.callMayWriteHeap(&x.Call) {
 					wholeHeap = true
 				}
@@ -372,7 +380,8 @@ func (e *Exec) callMayWriteHeap(cc *ssa.CallCommon) bool {
 			return !fc.HasAssign || len(fc.Assigns) > 0 || len(fc.Locks) > 0
 		}
 		switch cc.Method.Name() {
-		case "Done", "Err", "Value", "Error", "Context", "String", "Send", "Recv", "SendMsg", "CloseSend", "Header", "SendHeader":
+		case "Done", "Err", "Value", "Error", "Context", "String", "Send", "Recv", "SendMsg", "CloseSend", "Header", "SendHeader",
+			"RequireTransportSecurity", "GetRequestMetadata":
 			return false
 		}
 		return true
@@ -388,7 +397,7 @@ func (e *Exec) callMayWriteHeap(cc *ssa.CallCommon) bool {
 	}
 	switch v := cc.Value.(type) {
 	case *ssa.Builtin:
-		return v.Name() == "delete" || v.Name() == "close" || v.Name() == "append" || v.Name() == "copy"
+		return v.Name() == "delete" || v.Name() == "close" || v.Name() == "copy"
 	case *ssa.Function:
 		name := calleeFullName(v)
 		if isLocal(v) {
@@ -399,7 +408,7 @@ func (e *Exec) callMayWriteHeap(cc *ssa.CallCommon) bool {
 		}
 		switch name {
 		case "status.Errorf", "status.Error", "errors.New", "fmt.Errorf", "fmt.Sprintf", "status.FromError", "(*status.Status).Proto",
-			"(metadata.MD).Get", "strconv.ParseUint", "strconv.Atoi", "strings.SplitN", "errors.Is", "(*status.Status).Err", "status.FromProto":
+			"(metadata.MD).Get", "(metadata.MD).Append", "(metadata.MD).Set", "metadata.Join", "metadata.Pairs", "(metadata.MD).Copy", "strconv.ParseUint", "strconv.Atoi", "strings.SplitN", "errors.Is", "(*status.Status).Err", "status.FromProto":
 			return false
 		}
 		if strings.Contains(name, "atomic.") || strings.Contains(name, "sync.") || strings.Contains(name, "list.") {
@@ -508,6 +517,9 @@ func (e *Exec) constructorInvariants(st *State, r *ssa.Return) {
 				}
 				if d, ok := tc.Fields[c.Lock]; ok && d.Class == "token" {
 					continue
+				}
+				if c.Lock == "api" {
+					continue // precondition on values supplied by the API user: assumed, listed in the evidence
 				}
 				if c.Lock == "stable" {
 					continue // ghost termination state of a newly constructed object is false (trusted ghost semantics)
